@@ -45,6 +45,31 @@ def setup():
     ok = ok and r.returncode == 0
     os.makedirs(os.path.join(HERE, "evidence"), exist_ok=True)
     os.makedirs(os.path.join(HERE, "replays"), exist_ok=True)
+    # Lean lemma library (code-independent mathematics): type-check every file; a failure here does
+    # not fail the setup -- the lemmas are then listed as *assumed* in every evidence file
+    lean_dir = os.path.join(HERE, "lean")
+    for f in ("STATUS.json", "HASHES.json"):
+        try:
+            os.unlink(os.path.join(lean_dir, f))
+        except OSError:
+            pass
+    if os.environ.get("VERIF_SKIP_LEAN") != "1":
+        try:
+            r = subprocess.run(["bash", os.path.join(lean_dir, "build.sh")], capture_output=True, text=True,
+                               timeout=int(os.environ.get("VERIF_LEAN_TIMEOUT", "2400")))
+            print(r.stdout[-2000:])
+            if r.returncode == 0:
+                hs = {}
+                for f in sorted(os.listdir(lean_dir)):
+                    if f.endswith(".lean"):
+                        hs[f] = hashlib.sha256(open(os.path.join(lean_dir, f), "rb").read()).hexdigest()
+                with open(os.path.join(lean_dir, "HASHES.json"), "w") as fh:
+                    json.dump(hs, fh, indent=1)
+                print("lean lemma library: all files type-check")
+            else:
+                print("lean lemma library: build failed; lemmas will be reported as assumed")
+        except Exception as e:
+            print(f"lean lemma library not built ({e!r}); lemmas will be reported as assumed")
     return 0 if ok else 3
 
 
